@@ -260,6 +260,22 @@ check('C05', 'llparser',
       'Known finding F-C05 (templates nested in a sequence) is reported as KNOWN-FINDING.',
       'DESIGN.md section 4, C05')
 
+ENGINES['ghist'] = ('specs/ghist', ['C06'], 'GHist.tla (history model, report relation BranchOK), GHistCases.tla (history builder, '
+                    'Satisfiable), GHistJudge.tla (judge of real reports); driver harness/drivers/c06.py, harness/ghmock.py')
+check('C06', 'ghist',
+      'TLA+ relation between a git history and an acceptable report (per branch), checked satisfiable by TLC on every '
+      'history; TLC-built histories materialised as mock repositories, the real report judged branch by branch by TLC',
+      'TLC enumerates every history of up to 3 (quick) / 4 (thorough) commits with 0-2 parents (merges, several roots), '
+      'matching flags, up to 2 build tags and all placements of up to 3 branch heads (incl. heads coinciding with or '
+      'inside another branch) and simulates histories of 8 commits / 4 tags / 4 branches; ReposCollection.'
+      'make_reports_data runs on a mock repository and each branch report is accepted only if builds are the right '
+      'commits, every reachable matching commit is listed once under an ancestry-minimal build of that branch, never '
+      'under "not merged", "not merged" lists exactly the unreachable matching commits of lower branches, nothing '
+      'non-matching is listed, branches come in numeric-aware order.',
+      'Trusted: TLC, the mock repository. Known finding F-C06 (head of a branch inside a lower-sorted branch) is '
+      'reported as KNOWN-FINDING only when the report shows exactly the known pattern.',
+      'DESIGN.md section 4, C06')
+
 ALL = ['C%02d' % i for i in range(1, 21)]
 
 
